@@ -12,4 +12,17 @@ for pid in $pids; do
   PYXEL_REPO="$wt" VERIF_SEED=${VERIF_SEED:-0} ./check "$pid" "$tier" >"$wt.$pid.out" 2>/dev/null; rc=$?
   out=$(grep -E "VIOLATION|^  C[0-9]|^  unproved|InfraError|Error" "$wt.$pid.out" | head -6); rm -f "$wt.$pid.out"
   echo "$id $pid rc=$rc ${out:0:700}"
+  python3 - "$id" "$pid" "$rc" <<'PY'
+import json, sys, fcntl
+hid, pid, rc = sys.argv[1], sys.argv[2], int(sys.argv[3])
+p = f"/verif/harmless/{hid}/meta.json"
+with open("/verif/harmless/.lock", "w") as lk:
+    fcntl.flock(lk, fcntl.LOCK_EX)
+    try:
+        m = json.load(open(p))
+    except Exception:
+        m = {"files": [], "runs": {}}
+    m.setdefault("runs", {}).setdefault(pid, []).append(rc)
+    json.dump(m, open(p, "w"), indent=1)
+PY
 done
